@@ -508,6 +508,7 @@ def grain_run(cfg):
         st['it'] += 1; st['stage'] = 0
         return out
 
+    rec.append(('init', 0, dict(grid(), psd=np.array(m.pbm.PSD, dtype=float), idx=int(m.dissolutionIndex))))
     m.getdXdt, m.correctdXdt, m.getDt, m.postProcess = getdXdt, correctdXdt, getDt, postProcess
     m.pbm.adjustSizeClassesEuler = adjust
     solver = SolverType.EXPLICITEULER if cfg['solver'] == 'euler' else SolverType.RK4
@@ -619,6 +620,18 @@ def corr_grain(ctx, res, oracle_only=False, cfgs=None, lean_stride=None):
         for kind, it, r in rec:
             b, n = r['b'], r['bins']
             desc = dict(grain=cfg, iteration=it, call=kind, bins=n, bounds=[float(b[0]), float(b[-1])])
+            if kind == 'init':
+                # state left by LoadDistribution / LoadDistributionFunction / reset(): the stored index is that of the stored state
+                cur, tie = ref_diss_index(r['psd'], b, cfg['maxdiss'])
+                desc.update(stored_index=r['idx'], current_index=cur, psd=r['psd'].tolist())
+                if tie:
+                    res.near_tie_skipped += 1
+                else:
+                    res.count('grain-initial-index>0' if cur > 0 else 'grain-initial-index=0')
+                    if not oracle_only:
+                        lines.append('pbm.dissidx %s %s %s 0' % (enc_list(r['psd']), enc_list(r['size']), f2b(cfg['maxdiss'])))
+                        tags.append(('init', desc, r))
+                continue
             if kind == 'dxdt':
                 x, growth, d, nf = r['x'], r['growth'], r['d'], r['nf']
                 nontriv = bool(x.max() > 0 and np.abs(growth).max() > 0)
@@ -744,7 +757,11 @@ def corr_grain(ctx, res, oracle_only=False, cfgs=None, lean_stride=None):
             t = Toks(ans)
             if not t.ok:
                 res.disagree('grain %s model error' % kind, desc, 'ok', t.err); continue
-            if kind == 'dxdt':
+            if kind == 'init':
+                mi = t.nat()
+                if mi != r['idx']:
+                    res.disagree('grain initial state (%s): stored dissolution index is not the index of the stored distribution' % desc['grain']['hist'], desc, r['idx'], mi)
+            elif kind == 'dxdt':
                 mk = t.nat(); mnf = t.flts(); md = t.flts()
                 sc = float(np.abs(r['nf']).max())
                 if mk != 0 or not vlib.all_close(r['nf'], mnf, 1e-9, 1e-300) or not vlib.all_close(r['d'], md, 1e-9, sc * 1e-3):
